@@ -378,19 +378,27 @@ theorem C02_bookkeeping_refines [DecidableEq α] (n : Nat) (es : List (Event α)
   have h := runD_run (WState.init n) Book.init SpecState.init es (sD, B) (inv_init n) (minv_init n) (binv_init n) hok hk hrun
   exact ⟨h, C02_commit_refines_replay_partial n es sD h hok⟩
 
-/-- in particular for every history without `delete_all_documents` -/
+theorem noSubsteps_of_bookHist (c : Bool) (es : List (Event α)) (h : bookHist c es = true) :
+    es.all (fun e => !isSubstep e) = true := by
+  induction es generalizing c with
+  | nil => rfl
+  | cons e es ih =>
+    simp only [bookHist, Bool.and_eq_true] at h
+    simp only [List.all_cons, Bool.and_eq_true]
+    refine ⟨?_, ih _ h.2⟩
+    cases e <;> first | rfl | (have := h.1; simp at this)
+
+/-- **C02_bookkeeping_refines_history**: the same from the sequence of calls alone - `okHist` (as in
+`C02_commit_refines_replay_history`) and `bookHist`: `delete_all_documents` is only called on a
+writer object that has not committed yet (since `IndexWriter::new` / `rollback`). -/
 theorem C02_bookkeeping_refines_history [DecidableEq α] (n : Nat) (es : List (Event α)) (sD : WState α) (B : Book)
-    (hh : okHist HFlags.init (history es)) (hk : es.all bookOk = true)
+    (hh : okHist HFlags.init (history es)) (hk : bookHist false es = true)
     (hrun : runD (WState.init n, Book.init) es = some (sD, B)) :
-    List.Perm (published sD) (replay (history es)).committed := by
-  have hns : es.all (fun e => !isSubstep e) = true := by
-    rw [List.all_eq_true] at hk ⊢
-    intro e he
-    have := hk e he
-    cases e <;> first | rfl | simp [bookOk] at this
-  exact (C02_bookkeeping_refines n es sD B
-    (okRun2_of_okHist (WState.init n) SpecState.init HFlags.init es (inv_init n) (minv_init n) (flag_init n) hh hns)
-    (bookRun_of_all _ es hk) hrun).2.1
+    List.Perm (published sD) (replay (history es)).committed :=
+  (C02_bookkeeping_refines n es sD B
+    (okRun2_of_okHist (WState.init n) SpecState.init HFlags.init es (inv_init n) (minv_init n) (flag_init n) hh
+      (noSubsteps_of_bookHist false es hk))
+    (bookRun_of_hist _ false es (fun _ => Nat.le_refl _) hk) hrun).2.1
 
 /-- not vacuous, and the early return is exercised: the first commit (4) records
 `delete_opstamp = 4` for segment 0, the merge of the committed segments (target 4) takes the early
@@ -398,10 +406,10 @@ return for it, the commit (6) writes the delete of document 2 into the merged se
 rollback the re-created writer starts from these metas -/
 example :
     let es : List (Event Nat) :=
-      [.add 1, .add 3, .recv 0, .recv 0, .cut 0, .register, .add 2, .recv 0, .cut 0, .register,
+      [.deleteAll, .add 1, .add 3, .recv 0, .recv 0, .cut 0, .register, .add 2, .recv 0, .cut 0, .register,
        .del (fun d => d == 1), .commit none, .mergeStart [0, 1] true, .del (fun d => d == 2), .mergeEnd 0, .commit none,
        .add 4, .rollback, .commit none]
-    es.all bookOk = true
+    bookHist false es = true
       ∧ (runD (WState.init 1, Book.init) es).map (fun p => (published p.1, p.2.delOp 0, p.2.delOp 2))
           = some ([3], some 4, some 6) := by
   decide
